@@ -18,6 +18,7 @@ EXPLANATION = (
     "C10.F3: the holder's format-specific assembly must not consume (read-modify-write) constructor state."
     " C10.F2 also: the disclosure list is exactly parts[1..len-1] and the KB-JWT exactly the last part of input.split('~') (position algebra over iterator / index / slice-pattern forms); an Option field that one parser always fills with Some while the other may leave None, assumed None (A6 over the field) with every optional constructor check requested, reaches no Ok exit of SDJWTVerifier::new."
     " C10.F2 is judged on the parsers\u2019 views; sign_alg agreement compares derivations (the same computation over the stored token or its header part) and is vacuous when no algorithm is stored. C10.F3 json-disclosures: the envelope\u2019s `disclosures` is a whole copy of hs_disclosures (assignment or clone_from), never edited in place."
+    " C10.F3 json-disclosures-always: every path to the serialisation of the JSON envelope passes the whole copy (assignment, clone_from or mem::take) of the selected list."
 )
 ASSUMPTIONS = [
     "value-level equivalence of the two parsers on every input string is not decided; only that they fill the same state and that nothing after parsing can observe the format",
